@@ -41,15 +41,29 @@ type caseSpec struct {
 	Directed string `json:"directed,omitempty"`
 	NW1      int    `json:"n_w1,omitempty"`
 	Pick     int    `json:"follower_pick,omitempty"`
+	// lagging-follower motif (see runDirectedLag): W1 = first NW1 requests, W2 =
+	// next NW2, W3 = the rest.
+	NW2          int  `json:"n_w2,omitempty"`
+	SnapAt       int  `json:"first_leader_snapshot_after,omitempty"`
+	Trailing     int  `json:"leader_snapshot_trailing_logs,omitempty"`
+	W2Outage     bool `json:"endpoint_down_during_w2,omitempty"`
+	LagOutage    bool `json:"endpoint_down_from_cut_off_until_follower_leads,omitempty"`
+	RestartFirst bool `json:"follower_restarted_before_cut_off,omitempty"`
 }
 
 // nRandom is the number of random histories per tier; cases from nRandom on
-// are directed histories.
-func nRandom(c *vf.Ctx) int   { return c.N(3, 32) }
-func nDirected(c *vf.Ctx) int { return c.N(1, 4) }
+// are directed histories: first nDirectedSnap of the follower-snapshot motif,
+// then nDirectedLag of the lagging-follower motif.
+func nRandom(c *vf.Ctx) int       { return c.N(3, 32) }
+func nDirectedSnap(c *vf.Ctx) int { return c.N(1, 4) }
+func nDirectedLag(c *vf.Ctx) int  { return c.N(2, 6) }
+func nDirected(c *vf.Ctx) int     { return nDirectedSnap(c) + nDirectedLag(c) }
 
 // caseFor returns the case description for a case number.
 func caseFor(c *vf.Ctx, caseNo int) caseSpec {
+	if caseNo >= nRandom(c)+nDirectedSnap(c) {
+		return genDirectedLag(c, caseNo)
+	}
 	if caseNo >= nRandom(c) {
 		return genDirected(c, caseNo)
 	}
@@ -62,7 +76,7 @@ func caseFor(c *vf.Ctx, caseNo int) caseSpec {
 // node, endpoint back. The statements are drawn like everywhere else.
 func genDirected(c *vf.Ctx, caseNo int) caseSpec {
 	r := c.Rand(uint64(caseNo))
-	cs := caseSpec{Case: caseNo, Faults: map[int][]faultSpec{}, Directed: "follower-snapshot-restart-then-leader"}
+	cs := caseSpec{Case: caseNo, Faults: map[int][]faultSpec{}, Directed: motifFollowerSnap}
 	if caseNo%2 == 1 {
 		cs.Filter = filterRe
 	}
